@@ -54,6 +54,20 @@ add("C02", "model_checking",
     "Same explorer with per-slot observation: the state is advanced slot by slot on both sides and compared after EVERY slot (root caching, every epoch sub-transition, each in-place upgrade individually), with and without blocks in between (base scenarios: no blocks at all, one block per epoch, healthy, leak, deposits/activations, phase0-only; deviations: gaps, missing/wrong-target attestations, mass exits and slashings).",
     chnote, "bounded exhaustive exploration of histories on the implementation, lock-step with a reference model (per-slot comparison)", "DESIGN.md 3/C02")
 
+add("C07", "model_checking",
+    "The C01 exploration (same histories, same bounds) with a committee hook evaluated in EVERY reached state: GetBeaconCommittee for every slot of the previous/current/next epoch x every committee index (+ the first out-of-range index), GetCommitteeCountPerSlot, GetBeaconProposer for every slot of the current epoch, current and next sync-committee indices and cached pubkeys vs the specification functions evaluated on the reference state (per-index compute_shuffled_index, spec slicing, balance-weighted sampling); partition invariant (every active validator in exactly one committee, sizes differ by at most 1). Also evaluated on every genesis state of the C13 enumeration.",
+    chnote, "bounded exhaustive exploration of histories on the implementation with a per-state oracle (reference model)", "DESIGN.md 3/C07")
+add("C08", "model_checking",
+    "The C01 exploration with a context hook in EVERY reached state: all exported parts of the long-lived EpochsContext (three shufflings incl. committees, proposers, effective balances, total active stake and root, both sync committees' indices and pubkeys, pubkey<->index look-ups for every validator and every known key) vs NewEpochsContext on the state re-read from its own bytes; plus a differential continuation: the next default block applied to (copy of the long-lived pair) and to (reloaded state, fresh context) must give the same error/post-state bytes. Branching uses CopyState + Clone like a client.",
+    chnote + " EffectiveBalances is documented as 'at the start of the epoch': compared on the indices the epoch-start registry had.", "bounded exhaustive exploration of histories on the implementation with a differential (from-scratch / reloaded) oracle", "DESIGN.md 3/C08")
+add("C13", "exploration",
+    "Every deposit sequence of length <= 3 (quick) / 4 (thorough) over a 14-entry alphabet (amounts on both sides of every threshold, invalid proof-of-possession, non-curve pubkey, top-ups with valid/invalid signatures pushing across MAX, same key with other credentials) appended to / inserted into a base of valid deposits, with real Merkle proofs from an independent deposit tree, x 3 eth1 timestamps: genesis state bytes and root vs the reference initialize_beacon_state_from_eth1, returned context vs from-scratch, committees vs the specification, IsValidGenesisState on both sides of both thresholds; KickStartState on 6 validator sets.",
+    chnote, "bounded exhaustive enumeration of input sequences against a reference model", "DESIGN.md 3/C13")
+add("C14", "exploration",
+    "Finite exhaustive comparisons: all 462 non-decreasing fork schedules over {1..5,never} x epochs 0..7 x first/last slot x 2 genesis validators roots for Spec.ForkVersion / ForkDecoder.ForkDigest / BlockAllocator; all 70 phase0..deneb schedules as real chains (state type, state.Fork(), full state vs the reference after every slot; block<->envelope round trip; signature under the slot's version verifies through the envelope, under each other version it does not); every key of the built-in mainnet and minimal configurations and 30 spec-level Go constants against a pinned, reviewed table.",
+    "Trusted: the pinned table internal/forkx/refconsts.json (reviewed against the published presets/configs), the reference ForkData root, the chain harness. Electra/fulu: look-ups only (no transition in this library).",
+    "finite exhaustive enumeration of configurations x epochs, chains replayed on the implementation", "DESIGN.md 3/C14")
+
 claimed = {c["property_id"] for c in checks}
 na = [{"property_id": "C%02d" % i, "reason": "check not built yet (work in progress; same technique planned, see DESIGN.md section 3)"}
       for i in range(1, 21) if "C%02d" % i not in claimed]
@@ -66,7 +80,7 @@ m = {"version": 1,
      "engines": [
          {"name": "seqx", "path": "internal/seqx", "serves_properties": ["C09", "C10", "C11", "C16", "C20"],
           "kind_free_text": "explicit-state BFS over operation sequences on the real object, replay-from-root, exact state merging on (model state, full private-state dump)"},
-         {"name": "chainx", "path": "internal/chainx, internal/chainh, internal/refspec, internal/refssz", "serves_properties": ["C01", "C02"],
+         {"name": "chainx", "path": "internal/chainx, internal/chainh, internal/refspec, internal/refssz", "serves_properties": ["C01", "C02", "C07", "C08", "C13", "C14"],
           "kind_free_text": "deviation-bounded exhaustive explorer over beacon-chain histories; real zrnt transition vs reference specification model on every step"},
          {"name": "enumx", "path": "internal/numx, internal/shufx", "serves_properties": ["C06", "C19"],
           "kind_free_text": "bounded exhaustive enumeration of input shapes/values against reference implementations"}],
